@@ -34,6 +34,7 @@ type c16Input struct {
 	DirPre string   `json:"dir_pre"` // absent, present, older
 	File   string   `json:"file"`
 	TmpDir string   `json:"tmpdir,omitempty"` // "other-fs": the child's TMPDIR is on another file system than the test's directory
+	Mode   string   `json:"mode,omitempty"`   // "": one save; "second-save-same-name": an uninterrupted save, then the traced one to the same name; "check": a whole failing rapid.Check
 	Buf    []uint64 `json:"-"`
 	Out    []byte   `json:"-"`
 }
@@ -78,6 +79,15 @@ func c16Expected(in *c16Input) string {
 
 const c16Older = "# older failure\nv0.4.8#7\n0x1\n0x2"
 
+const c16FirstOut = "the earlier failure\nsecond line of it"
+
+// c16FirstExpected: the complete file of the earlier save in mode "second-save-same-name"
+func c16FirstExpected() string {
+	return "# the earlier failure\n# second line of it\n" + rapid.VerifVersion() + "#98\n0x7\n0x8\n0x9"
+}
+
+var reC16Stamp = regexp.MustCompile(`(?m)^# \d{4}/\d\d/\d\d \d\d:\d\d:\d\d(\.\d+)? `)
+
 func (in *c16Input) prepareDir() {
 	os.RemoveAll("testdata")
 	dir := filepath.Dir(in.File)
@@ -105,7 +115,15 @@ func c16Inspect(in *c16Input, reference string) (problems []string, visible int,
 		if strings.Contains(m, "-20200101000000-1.fail") {
 			want = c16Older
 		}
-		if string(b) != want {
+		got := string(b)
+		if in.Mode == "second-save-same-name" && got == c16FirstExpected() {
+			continue // the earlier complete file is still there: fine
+		}
+		if in.Mode == "check" {
+			// file names carry time and pid, comments carry time stamps: compare up to those
+			got, want = reC16Stamp.ReplaceAllString(got, "# "), reC16Stamp.ReplaceAllString(want, "# ")
+		}
+		if got != want {
 			problems = append(problems, fmt.Sprintf("%s: %d bytes, differs from the uninterrupted save's %d bytes (common prefix %d)", m, len(b), len(want), commonPrefix(string(b), want)))
 		}
 		if _, _, _, err := rapid.VerifLoadFailFile(m); err != nil {
@@ -271,9 +289,40 @@ func CrashChildMain(arg string) {
 		os.Exit(2)
 	}
 	in.fill()
-	syscall.Mkdir("SENTINEL-BEGIN", 0o700)
-	err := rapid.VerifSaveFailFile(in.File, rapid.VerifVersion(), in.Out, 99, in.Buf)
-	syscall.Mkdir("SENTINEL-END", 0o700)
+	var err error
+	switch in.Mode {
+	case "second-save-same-name":
+		// an earlier, uninterrupted save under the very name the traced one is going to use (same test, same second, same pid)
+		if err = rapid.VerifSaveFailFile(in.File, rapid.VerifVersion(), []byte(c16FirstOut), 98, []uint64{7, 8, 9}); err != nil {
+			fmt.Fprintln(os.Stderr, err)
+			os.Exit(1)
+		}
+		syscall.Mkdir("SENTINEL-BEGIN", 0o700)
+		err = rapid.VerifSaveFailFile(in.File, rapid.VerifVersion(), in.Out, 99, in.Buf)
+		syscall.Mkdir("SENTINEL-END", 0o700)
+	case "check":
+		// everything the public Check does for a failing property, from the first test case to the final report
+		setFlags(Config{Checks: 3, Seed: 5, ShrinkMS: 0})
+		tb := NewTB(in.Name)
+		syscall.Mkdir("SENTINEL-BEGIN", 0o700)
+		Guard(func() {
+			rapid.Check(tb, func(t *rapid.T) {
+				x := rapid.Int16().Draw(t, "x")
+				for i := 0; i < in.Lines; i++ {
+					t.Logf("line %d of the output", i)
+				}
+				for i := 0; i < in.Words; i++ {
+					rapid.Uint64().Draw(t, "w")
+				}
+				t.Fatalf("always fails (x=%d)", x)
+			})
+		})
+		syscall.Mkdir("SENTINEL-END", 0o700)
+	default:
+		syscall.Mkdir("SENTINEL-BEGIN", 0o700)
+		err = rapid.VerifSaveFailFile(in.File, rapid.VerifVersion(), in.Out, 99, in.Buf)
+		syscall.Mkdir("SENTINEL-END", 0o700)
+	}
 	if err != nil {
 		fmt.Fprintln(os.Stderr, err)
 		os.Exit(1)
@@ -376,6 +425,9 @@ func c16StraceUnit(in c16Input) Unit {
 	if in.TmpDir != "" {
 		uname += "/TMPDIR=" + in.TmpDir
 	}
+	if in.Mode != "" {
+		uname += "/" + in.Mode
+	}
 	return Unit{Name: uname, Run: func(c *Ctx) {
 		in := in
 		in.fill()
@@ -402,6 +454,15 @@ func c16StraceUnit(in c16Input) Unit {
 			return
 		}
 		refb, _ := os.ReadFile(in.File)
+		if in.Mode == "check" {
+			// Check chooses the file's name itself (time, pid)
+			ms, _ := filepath.Glob(rapid.VerifFailFilePattern(in.Name))
+			for _, m := range ms {
+				if !strings.Contains(m, "-20200101000000-1.fail") {
+					refb, _ = os.ReadFile(m)
+				}
+			}
+		}
 		reference := string(refb)
 		if reference == "" {
 			c.R.HarnessErr = "reference run wrote no file"
@@ -449,6 +510,10 @@ func c16StraceUnit(in c16Input) Unit {
 				c.Violate(Violation{Sig: "C16 partial-file-visible syscall=" + name, Detail: fmt.Sprintf("SIGKILL on entry to system call %d of the save window (%s, occurrence %d): %v", i, call, occ[name], problems),
 					Replay: map[string]any{"engine": "strace", "input": in, "syscall": name, "occurrence": occ[name], "when": when, "window": w.calls[:min(len(w.calls), 30)]}, Devs: i})
 			}
+		}
+		if in.Mode != "" {
+			os.RemoveAll("testdata")
+			return
 		}
 		// binding of the shim to the real system calls: the in-process operation trace of the same save
 		// must correspond to the traced window (writes 1:1, one create, one rename, closes, one unlink)
@@ -502,6 +567,15 @@ func c16Units(tier string, seed int64) []Unit {
 				units = append(units, c16StraceUnit(in))
 			}
 		}
+	}
+	// histories beyond one save: a second save to the very same name; the whole public Check around the save
+	units = append(units, c16StraceUnit(c16Input{Name: "TestCrash", Lines: 3, Words: 5, DirPre: "absent", Mode: "second-save-same-name"}))
+	units = append(units, c16StraceUnit(c16Input{Name: "TestCrash", Lines: 0, Words: 0, DirPre: "older", Mode: "second-save-same-name"}))
+	units = append(units, c16StraceUnit(c16Input{Name: "TestCrash", Lines: 2, Words: 3, DirPre: "absent", Mode: "check"}))
+	units = append(units, c16StraceUnit(c16Input{Name: "TestCrash", Lines: 0, Words: 1, DirPre: "older", Mode: "check"}))
+	if !quick {
+		units = append(units, c16StraceUnit(c16Input{Name: "TestCrash", Lines: 200, Words: 300, DirPre: "present", Mode: "check"}))
+		units = append(units, c16StraceUnit(c16Input{Name: "TestCrash", Lines: 200, Words: 5000, DirPre: "present", Mode: "second-save-same-name"}))
 	}
 	// the process's temporary directory on another file system than the test's directory
 	units = append(units, c16StraceUnit(c16Input{Name: "TestCrash", Lines: 3, Words: 5, DirPre: "absent", TmpDir: "other-fs"}))
